@@ -4,7 +4,6 @@ package main
 
 import (
 	"fmt"
-	"os"
 	"sort"
 	"strings"
 	"sync"
@@ -176,8 +175,8 @@ type cviol struct {
 
 // runC executes one history on a fresh database and checks every proof.
 func runC(path []int) (vs []cviol, nver int64) {
-	dir := lib.Scratch("c19c")
-	defer os.RemoveAll(dir)
+	dir := getDir()
+	defer putDir(dir)
 	opts := database.DefaultOptions().WithDBRootPath(dir).WithStoreOptions(storeOpts())
 	db, err := database.NewDB("db1", nil, opts, logger.NewMemoryLoggerWithLevel(logger.LogError))
 	if err != nil {
